@@ -121,6 +121,7 @@ type checkRun struct {
 	ssaHash  map[string]string
 	contract map[string]*Contract
 	fns      map[string]*ssa.Function
+	rebound  []string // contracts that followed a function to a new name (rebindFunctions)
 }
 
 func sanitize(s string) string {
@@ -167,6 +168,7 @@ func runProperty(id, tier string, timeout int, overlay map[string][]byte, only s
 			return nil, fmt.Errorf("contracts: %v", err)
 		}
 		run.files = append(run.files, e.db.Files...)
+		run.rebound = append(run.rebound, e.rebindNotes...)
 		for _, dc := range e.db.Distinct {
 			serves := false
 			for _, p := range dc.Props {
@@ -521,6 +523,9 @@ func cmdCheck(args []string) {
 			continue
 		}
 		noteList = append(noteList, fmt.Sprintf("%s (x%d)", k, notes[k]))
+	}
+	for _, n := range run.rebound {
+		noteList = append(noteList, n)
 	}
 	for _, k := range sortedKeys(unframed) {
 		noteList = append(noteList, fmt.Sprintf("%d heap arrays of %s are written by an uncontracted callee through a pointer argument: not framed", unframed[k], k))
